@@ -54,6 +54,8 @@ type gl struct {
 	nScan     int
 	rdLoopVar string
 	wrParam   string // name of the io.Writer parameter when translating a Write method
+	opaque     map[string]string // function name -> parameter standing for its result
+	opaqueUsed map[string]bool
 	iterRead  string // translated read function used by the iter method being translated
 	iterRec   string
 	funcs   map[string]*glFunc
@@ -446,6 +448,13 @@ func (e ex) opnd2() string {
 }
 
 func (g *gl) call(c *ast.CallExpr) ex {
+	// calls that stand for an input of the translated function (documented where they are declared)
+	if id, ok := c.Fun.(*ast.Ident); ok {
+		if p, ok := g.opaque[id.Name]; ok {
+			g.opaqueUsed[id.Name] = true
+			return atomE(p)
+		}
+	}
 	// conversions
 	if tv, ok := g.info.Types[c.Fun]; ok && tv.IsType() && len(c.Args) == 1 {
 		from := g.typeOf(c.Args[0])
@@ -1391,8 +1400,13 @@ func (g *gl) fprintfStmt(w *wr, a *ast.AssignStmt) (string, bool) {
 
 // writerMethod translates `func (f *T) Write(w io.Writer) error` of a record type: the receiver's fields
 // become parameters `f_<Field>`, the writer the abstract `Wr`; the result is (error, writer afterwards).
-func (g *gl) writerMethod(lname, recvType, method, rel, placeholder string) {
+func (g *gl) writerMethod(lname, recvType, method, rel, placeholder string, opaque map[string][2]string) {
 	g.guarded(lname, placeholder, func() (string, []string) {
+		g.opaque, g.opaqueUsed = map[string]string{}, map[string]bool{}
+		for fn, p := range opaque {
+			g.opaque[fn] = p[0]
+		}
+		defer func() { g.opaque = nil }()
 		var fd *ast.FuncDecl
 		file := ""
 		for _, f := range g.files {
@@ -1425,16 +1439,40 @@ func (g *gl) writerMethod(lname, recvType, method, rel, placeholder string) {
 		var fs, params []string
 		for i := 0; i < st.NumFields(); i++ {
 			f := st.Field(i)
+			lt, ok := func() (t string, ok bool) {
+				defer func() {
+					if r := recover(); r != nil {
+						if _, isBail := r.(bail); !isBail {
+							panic(r)
+						}
+						ok = false
+					}
+				}()
+				return g.leanType(f.Type()), true
+			}()
+			if !ok {
+				continue // a field of a type the translation cannot express: usable only through an opaque call
+			}
 			fs = append(fs, f.Name())
-			params = append(params, "("+rn.Name+"_"+f.Name()+" : "+g.leanType(f.Type())+")")
+			params = append(params, "("+rn.Name+"_"+f.Name()+" : "+lt+")")
 		}
 		g.structLoc[robj] = fs
 		w := &wr{b: &bytes.Buffer{}, ind: 1}
 		w.line("let mut " + g.wrParam + " := " + g.wrParam)
 		g.block(w, fd.Body.List)
 		globals := g.sortedGlobals()
+		doc := ""
+		var ofs []string
+		for fn := range g.opaqueUsed {
+			ofs = append(ofs, fn)
+		}
+		sort.Strings(ofs)
+		for _, fn := range ofs {
+			params = append(params, "("+opaque[fn][0]+" : "+opaque[fn][1]+")")
+			doc += "; `" + opaque[fn][0] + "` stands for the value of " + fn + "(…)"
+		}
 		all := strings.TrimSpace(g.globalParams(globals) + " " + strings.Join(params, " ") + " (" + g.wrParam + " : Wr)")
-		text := fmt.Sprintf("def %s_Found : Bool := true\n%s/-- translated from (*%s).%s in %s/%s; the io.Writer accepts `room` more bytes, then fails -/\ndef %s %s : Option (GoErr × Wr) := do\n%s",
+		text := fmt.Sprintf("def %s_Found : Bool := true\n%s/-- translated from (*%s).%s in %s/%s; the io.Writer accepts `room` more bytes, then fails"+doc+" -/\ndef %s %s : Option (GoErr × Wr) := do\n%s",
 			lname, strings.Join(g.lits, ""), recvType, method, rel, file, lname, all, w.b.String())
 		return text, globals
 	})
@@ -1813,11 +1851,16 @@ func goLean(repo, out string) {
 	w.WriteString(g4.funcs["fastq_iter"].text + "\n")
 	// the Write methods of the two record types
 	g3.writerMethod("fasta_Write", "Fasta", "Write", "formats/fasta",
-		"def fasta_Write (f_Name : "+B+") (f_Sequence : "+B+") (w : Wr) : Option (GoErr × Wr) := none")
+		"def fasta_Write (f_Name : "+B+") (f_Sequence : "+B+") (w : Wr) : Option (GoErr × Wr) := none", nil)
 	w.WriteString(g3.funcs["fasta_Write"].text + "\n")
 	g4.writerMethod("fastq_Write", "Fastq", "Write", "formats/fastq",
-		"def fastq_Write (f_Name : "+B+") (f_Sequence : "+B+") (f_Quals : "+B+") (w : Wr) : Option (GoErr × Wr) := none")
+		"def fastq_Write (f_Name : "+B+") (f_Sequence : "+B+") (f_Quals : "+B+") (w : Wr) : Option (GoErr × Wr) := none", nil)
 	w.WriteString(g4.funcs["fastq_Write"].text + "\n")
+	g5 := loadPkg(filepath.Join(repo, "formats", "sam"))
+	g5.writerMethod("sam_Write", "SAM", "Write", "formats/sam",
+		"def sam_Write (s_Qname : "+B+") (s_Flag : Int) (s_Rname : "+B+") (s_Pos : Int) (s_Mapq : Int) (s_Cigar : "+B+") (s_Rnext : "+B+") (s_Pnext : Int) (s_Tlen : Int) (s_Seq : "+B+") (s_Qual : "+B+") (s_TagTexts : "+BB+") (w : Wr) : Option (GoErr × Wr) := none",
+		map[string][2]string{"tagsToText": {"s_TagTexts", BB}})
+	w.WriteString(g5.funcs["sam_Write"].text + "\n")
 	fmt.Fprintln(w, "end Bio.Generated.GoSrc")
 	os.Remove(out)
 	if err := os.WriteFile(out, w.Bytes(), 0o644); err != nil {
